@@ -3,7 +3,8 @@
 and records, in seeded/<id>/meta.json, which rule keys report it (expected_detection)."""
 import json, os, subprocess, sys, glob
 V = "/verif"
-WT = "/tmp/axv_seeded_wt"
+WT = os.environ.get("RECORD_WT", "/tmp/axv_seeded_wt")
+TGT = os.environ.get("RECORD_TARGET", "")
 PROPS = [c["property_id"] for c in json.load(open(V + "/MANIFEST.json"))["checks"]]
 def sh(cmd, cwd=None, env=None):
     e = dict(os.environ); e.update(env or {})
@@ -21,10 +22,15 @@ for d in sorted(glob.glob(V + "/seeded/*/")):
     sh("git checkout -- . && git clean -fdq crates", WT)
     rc, o = sh("git apply %spatch.diff" % d, WT)
     if rc != 0:
+        rc, o = sh("git apply --3way %spatch.diff && git reset -q" % d, WT)
+    if rc != 0:
         print(mid, "DOES NOT APPLY to HEAD:", o[-200:]); continue
     got = {}
     for p in PROPS:
-        rc, o = sh("./axv check %s" % p, V, {"AXV_REPO": WT, "AXV_EVIDENCE_DIR": V + "/.cache/seeded_evidence"})
+        env = {"AXV_REPO": WT, "AXV_EVIDENCE_DIR": V + "/.cache/seeded_evidence" + WT.replace("/", "_")}
+        if TGT:
+            env["AXV_TARGET_DIR"] = TGT
+        rc, o = sh("./axv check %s" % p, V, env)
         if rc == 2:
             got[p] = ["DOES-NOT-BUILD"]
         elif rc != 0:
